@@ -5,7 +5,28 @@ import (
 	"fmt"
 	"os"
 	"strconv"
+
+	"github.com/agglayer/aggkit/log"
 )
+
+var theLogger *log.Logger
+
+// lg returns a logger that discards everything below fatal (the code under test logs heavily)
+func lg() *log.Logger {
+	if theLogger == nil {
+		out := "/dev/null"
+		if os.Getenv("VERIF_LOG") != "" {
+			out = "stderr"
+		}
+		lvl := "fatal"
+		if os.Getenv("VERIF_LOG") != "" {
+			lvl = os.Getenv("VERIF_LOG")
+		}
+		log.Init(log.Config{Environment: "production", Level: lvl, Outputs: []string{out}})
+		theLogger = log.WithFields("m", "verif")
+	}
+	return theLogger
+}
 
 // A scenario generates ops (unless replaying), runs them on the real code and records observations.
 type Scenario struct {
@@ -41,6 +62,7 @@ func main() {
 		fmt.Println("-out required")
 		os.Exit(2)
 	}
+	lg()
 	r := NewRun(sc, *tier, *seed, *out)
 	if *replay != "" {
 		s.Replay(r, readLines(*replay))
